@@ -307,6 +307,7 @@ def region_rcb(case):
     return False
 
 
+SHRINK_STRINGS = True
 REGIONS = {"rcb-line": region_rcb}
 
 # ----------------------------------------------------------------------------- strategies
